@@ -235,9 +235,11 @@ class BSplineBasis:
 
         # collapse periodic functions onto themselves
         if self.periodic > -1:
-            for j in range(self.periodic + 1):
-                N[j] += N[-self.periodic - 1 + j]
-            N = N[:-self.periodic-1]
+            n = self.num_functions()
+            M = [0.0] * n
+            for j in range(len(N)):
+                M[j % n] += N[j]  # sum all wrapped images (there may be several when n < periodic+1)
+            N = M
 
         return N
 
